@@ -102,6 +102,11 @@ Definition state_audit_live (inventory : list state_item) : bool :=
                                     context-less call returns a throw-away TypeObject and must NOT store it
      TypeAlias.evaluated_value / type_params   write-once, computed by the alias's own evaluator
      Checker._has_used_any_match    a flag that is reset (qcore.override ... False) around every use *)
+(* "ReferencingValue scope" rows (round 5): a write through ReferencingValue(scope, name) lands in `scope`;
+   the audit of StackedScopes._builtin_scope ("Scope.set is never called on the builtin scope") holds only
+   while every ReferencingValue points at the module scope of the checked module (visit_Global) or at an
+   enclosing function scope / that module scope (visit_Nonlocal) -- never at whatever scope currently
+   resolves the name, which for a builtin is the class-level scope shared by all visitors. *)
 Definition pinned_cache_keys : list cache_key := [
   CacheKey "annotations.py" "_DefaultContext.get_type_alias" "cache" "in" "key";
   CacheKey "annotations.py" "_DefaultContext.get_type_alias" "cache" "load" "key";
@@ -121,6 +126,8 @@ Definition pinned_cache_keys : list cache_key := [
   CacheKey "name_check_visitor.py" "NameCheckVisitor._set_argspec_to_retval" "self._argspec_to_retval" "store" "id(sig)";
   CacheKey "name_check_visitor.py" "NameCheckVisitor.get_local_return_value" "self._argspec_to_retval" "get" "id(sig)";
   CacheKey "name_check_visitor.py" "NameCheckVisitor.visit" "self._method_cache" "load" "node_type := type(node)";
+  CacheKey "name_check_visitor.py" "visit_Global" "ReferencingValue scope" "construct" "module_scope := self.scopes.module_scope()";
+  CacheKey "name_check_visitor.py" "visit_Nonlocal" "ReferencingValue scope" "construct" "defining_scope := self.scopes.get_nonlocal_scope(name, self.scopes.current_scope()) | self.scopes.module_scope()";
   CacheKey "node_visitor.py" "BaseNodeVisitor.show_error" "self.seen_errors" "in" "key := (node, error_code or e)";
   CacheKey "safe.py" "_fill_typing_name_cache" "_typing_name_cache" "load" "name";
   CacheKey "safe.py" "_fill_typing_name_cache" "_typing_name_cache" "store" "name";
@@ -134,8 +141,8 @@ Definition pinned_cache_keys : list cache_key := [
   CacheKey "stacked_scopes.py" "_memoized_invert" "attribute _inverted" "get" "object constraint";
   CacheKey "stacked_scopes.py" "_memoized_invert" "attribute _inverted" "store" "object cached";
   CacheKey "stacked_scopes.py" "_memoized_invert" "attribute _inverted" "store" "object constraint";
-  CacheKey "type_object.py" "TypeObject.can_assign" "self._protocol_positive_cache" "get" "other_val";
-  CacheKey "type_object.py" "TypeObject.can_assign" "self._protocol_positive_cache" "store" "other_val";
+  CacheKey "type_object.py" "TypeObject.can_assign" "self._protocol_positive_cache" "get" "cache_key := (self_val, other_val)";
+  CacheKey "type_object.py" "TypeObject.can_assign" "self._protocol_positive_cache" "store" "cache_key := (self_val, other_val)";
   CacheKey "typeshed.py" "TypeshedFinder._value_from_info_inner" "self._assignment_cache" "in" "key := (module, info.ast)";
   CacheKey "typeshed.py" "TypeshedFinder._value_from_info_inner" "self._assignment_cache" "load" "key := (module, info.ast)";
   CacheKey "typeshed.py" "TypeshedFinder._value_from_info_inner" "self._assignment_cache" "store" "key := (module, info.ast)";
